@@ -197,6 +197,12 @@ fn sbx_(f: &[&str], cat: bool) -> String {
         rest1.extend_from_slice(p);
     }
     let empty = it.is_empty();
+    // an iterator is a value: for odd k the run goes on with a clone of the exhausted iterator
+    // (whatever it carries across `extend` -- escape state, pending UTF-8 decoder state -- the clone carries too)
+    if k % 2 == 1 {
+        let copy = it.clone();
+        it = copy;
+    }
     it.extend(&d2);
     let rest2: Vec<u8> = it.flat_map(|p| p.to_vec()).collect();
     if cat {
